@@ -77,10 +77,11 @@ func (w *World) evidence(choices []Choice) []int64 {
 		// the JobPipelined call that closed the statement this eviction was committed with
 		// (none for the intra-job phase, which commits per assigned preemptor)
 		jpCount, jpMin := int64(-1), int64(-1)
+		var jpRoles []int64
 		for k := i - 1; k >= 0; k-- {
 			if w.Trace[k].Kind == 13 {
 				if w.Trace[k].Task == w.jobOfTask(a.Preemptor) && w.jobOfTask(e.Task) != w.jobOfTask(a.Preemptor) {
-					jpCount, jpMin = w.Trace[k].Status, w.Trace[k].Node
+					jpCount, jpMin, jpRoles = w.Trace[k].Status, w.Trace[k].Node, w.Trace[k].Roles
 				}
 				break
 			}
@@ -99,6 +100,8 @@ func (w *World) evidence(choices []Choice) []int64 {
 		out = append(out, int64(len(a.QOrder)))
 		out = append(out, a.QOrder...)
 		out = append(out, a.PAlloc...)
+		out = append(out, int64(len(jpRoles)/2))
+		out = append(out, jpRoles...)
 	}
 	out = append([]int64{int64(n)}, out...)
 	ids := w.taskIDs()
@@ -271,6 +274,8 @@ func Harness() vh.Harness {
 				spec = CapGapWitness()
 			} else if i%6 == 5 {
 				spec = GenCapStage(r)
+			} else if i%6 == 4 {
+				spec = GenRoleStage(r)
 			} else {
 				spec = GenSpec(r)
 			}
